@@ -183,6 +183,19 @@ def install_import(vm, synth_mod):
     vm.spec.opaque_hooks["getattr_sym"] = getattr_sym
 
 
+class Built(Opaque):
+    """what a class's own _from_json (or a registered deserialiser) built: an arbitrary user object -- it may be falsy (an empty
+    container-like object, a zero-like number); whoever asks for its truth value is recorded"""
+
+    def __init__(self, of, touched):
+        super().__init__("built-object")
+        self.of, self.touched = of, touched
+
+    def m_truth(self, vm):
+        self.touched.append("truth")
+        return vm.ctx.choice(2, "built-object-is-truthy") == 1
+
+
 def h_objects():
     def run(vm):
         ctx = vm.ctx
@@ -194,16 +207,22 @@ def h_objects():
         for cname in ("Animal", "Dog", "Puppy", "Route"):
             C = vm.loader.cls("pyvc_synth_c18", cname)
             # every class answers _from_json by recording which class it was called on
-            vm.spec.stubs["SubclassJSONSerializer._from_json"] = lambda it, a, k: (handed.append((a[0], a[1])), ("instance-of", a[0]))[1]
+            touched = []
+            vm.spec.stubs["SubclassJSONSerializer._from_json"] = lambda it, a, k: (handed.append((a[0], a[1])), Built(a[0], touched))[1]
             o = vm.alloc(C, {}, tag=f"a-{cname}")
             j = vm.call(tj, [o], {})
             tag = dict_get(j, "__json_type__") if isinstance(j, PyDict) else None
             ctx.check("SubclassJSONSerializer.to_json::writes-the-fully-qualified-name-of-the-exact-class",
                       z3.BoolVal(tag == f"pyvc_synth_c18.{cname}"), detail=f"{cname}: {j!r}")
             del handed[:]
-            back = vm.call(fj, [j], {})
-            ok = handed and handed[0][0] is C and handed[0][1] is j and back == ("instance-of", C)
+            try:
+                back = vm.call(fj, [j], {})
+            except PyRaise as pr:
+                back = ("raised", pr.exc.cls.name)
+            ok = handed and handed[0][0] is C and handed[0][1] is j and isinstance(back, Built) and back.of is C
             ctx.check("from_json::hands-over-to-_from_json-of-exactly-the-tagged-class", z3.BoolVal(bool(ok)), detail=f"{cname}: {handed} -> {back!r}")
+            ctx.check("from_json::what-the-class-built-is-returned-as-it-is-falsy-or-not", z3.BoolVal(isinstance(back, Built) and not touched),
+                      detail=f"{cname}: returned {back!r}; asked of the built object: {touched}")
             # ... whatever else the payload contains: fields called "type" / "class" / "__class__" / "json_type" do not take part in the dispatch
             if isinstance(j, PyDict):
                 from pyvc.ops import dict_set
@@ -212,7 +231,7 @@ def h_objects():
                     del handed[:]
                     try:
                         back = vm.call(fj, [j2], {})
-                        ok = handed and handed[0][0] is C and back == ("instance-of", C)
+                        ok = handed and handed[0][0] is C and isinstance(back, Built) and back.of is C
                     except PyRaise as pr:
                         ok = False
                     ctx.check("from_json::only-the-tag-key-decides-the-class-whatever-other-fields-the-payload-has", z3.BoolVal(bool(ok)), detail=f"{cname} with {extra_key}={extra_val!r}: {handed}")
